@@ -67,7 +67,7 @@ static std::vector<std::string> split(const std::string &s, char sep)
 
 // ---------------------------------------------------------------- design under test
 struct Dut {
-	std::vector<std::pair<InputPins, size_t>> ins;  // vector inputs with width
+	std::vector<std::pair<std::optional<InputPins>, size_t>> ins;  // vector inputs with width (nullopt: operand present in the case line but not connected)
 	std::vector<OutputPins> outs;
 	std::vector<OutputPin> bitOuts;                  // printed after outs
 	std::vector<size_t> outOrder;                    // 0.. => outs index, (1<<20)+k => bitOuts index
@@ -77,6 +77,7 @@ struct Dut {
 		ins.push_back({ p, w });
 		return (UInt)p;
 	}
+	void skip() { ins.push_back({ std::nullopt, 0 }); }
 	template<class T> void out(const T &v, const char *name) { outOrder.push_back(outs.size()); outs.push_back(pinOut(v).setName(name)); }
 	void outBit(const Bit &v, const char *name) { outOrder.push_back((1u << 20) + bitOuts.size()); bitOuts.push_back(pinOut(v).setName(name)); }
 	// zero-width results cannot be pinned out; they print as 0
@@ -102,7 +103,8 @@ static void driveInputs(const Dut &d, const std::vector<std::string> &ops, const
 {
 	if (ops.size() != d.ins.size()) { fprintf(stderr, "operand count mismatch in '%s' (%zu vs %zu)\n", ctx.c_str(), ops.size(), d.ins.size()); exit(3); }
 	for (size_t k = 0; k < ops.size(); k++)
-		simu(d.ins[k].first) = vh::fromBits(hexToBits(ops[k], d.ins[k].second));
+		if (d.ins[k].first)
+			simu(*d.ins[k].first) = vh::fromBits(hexToBits(ops[k], d.ins[k].second));
 }
 
 // ---------------------------------------------------------------- builders
@@ -215,7 +217,9 @@ SEQ(cntv) {
 	else { pe = pinIn(BitWidth{ E }).setName("end"); cp = std::make_unique<scl::Counter>((UInt)*pe, (size_t)rv); }
 	scl::Counter &c = *cp;
 	const size_t w = c.value().size();
-	UInt inc = d.in(1, "inc"); UInt dec = d.in(1, "dec"); UInt en = d.in(1, "en"); UInt ld = d.in(1, "load"); UInt lv = d.in(w, "loadValue");
+	UInt inc = d.in(1, "inc"); UInt dec = d.in(1, "dec"); UInt en = d.in(1, "en"); UInt ld = d.in(1, "load");
+	UInt lv = ConstUInt(0, BitWidth{ w });
+	if (w > 0) lv = d.in(w, "loadValue"); else d.skip();   // Counter(1): zero-width value
 	switch (scope) {
 	case 0: if (bi) { IF(inc[0]) c.inc(); } if (bd) { IF(dec[0]) c.dec(); } break;
 	case 1: if (bi) c.inc(); if (bd) c.dec(); break;
@@ -233,7 +237,7 @@ SEQ(cntv) {
 	case 3: IF(en[0]) { IF(ld[0]) c.load(lv); } break;
 	default: break;
 	}
-	d.out(c.value(), "value"); d.outBit(c.isLast(), "last"); d.outBit(c.isFirst(), "first"); d.outBit(c.becomesFirst(), "becomesFirst");
+	d.outMaybeEmpty(c.value(), "value"); d.outBit(c.isLast(), "last"); d.outBit(c.isFirst(), "first"); d.outBit(c.becomesFirst(), "becomesFirst");
 	if (pe) d.ins.push_back({ *pe, (size_t)E });
 }
 // scl::Adder<UInt>: adder <w> <k> : a_1 .. a_k -> sum     (operator+= chain)
